@@ -52,13 +52,80 @@ def _marked_error(msg):
     return yaml.scanner.ScannerError(None, None, msg, None)
 
 
+def _representer_error(msg):
+    import yaml
+    return yaml.representer.RepresenterError(msg)
+
+
+def _representer_error2(msg):
+    import yaml
+    return yaml.representer.RepresenterError(msg, {"detail": [1, 2]})
+
+
+def _constructor_error(msg):
+    import yaml
+    return yaml.constructor.ConstructorError("while doing the caller's work", None, msg, None)
+
+
+def _emitter_error(msg):
+    import yaml
+    return yaml.emitter.EmitterError(msg)
+
+
+def _reader_error(msg):
+    import yaml
+    return yaml.reader.ReaderError("<caller>", 3, 0x7, "caller-codec", msg)
+
+
+class Detailed(Exception):
+    """a caller's exception that carries state of its own"""
+
+    def __init__(self, msg):
+        super().__init__(msg)
+        self.detail = {"code": 17, "path": ["a", 0]}
+        self.add_note("note attached by the caller")
+
+
+for _f, _n in ((_representer_error, "RepresenterError"), (_representer_error2, "RepresenterError2"), (_constructor_error, "ConstructorError"),
+               (_emitter_error, "EmitterError"), (_reader_error, "ReaderError")):
+    _f.__name__ = _n
 _decode_error.__name__ = "UnicodeDecodeError"
 _encode_error.__name__ = "UnicodeEncodeError"
 _yaml_error.__name__ = "YAMLError"
 _marked_error.__name__ = "ScannerError"
 # exception factories: the caller's own exceptions, incl. the types the library itself catches or raises internally
 EXC_TYPES = [Boom, TypeError, ValueError, KeyError, AttributeError, OSError, Interrupt, IndexError, RuntimeError,
-             _decode_error, _encode_error, _yaml_error, _marked_error, UnicodeError, LookupError, MemoryError, EOFError]
+             _decode_error, _encode_error, _yaml_error, _marked_error, UnicodeError, LookupError, MemoryError, EOFError,
+             _representer_error, _representer_error2, _constructor_error, _emitter_error, _reader_error, Detailed]
+
+_snaps = {}
+
+
+def _snapshot(e):
+    try:
+        text = str(e)
+    except Exception as x:
+        text = "str() raised %s" % type(x).__name__
+    return (type(e), repr(e.args), text, repr(sorted((k, repr(v)) for k, v in vars(e).items())))
+
+
+def make_exc(exc_type, msg):
+    """The caller's exception, with a snapshot of what it looked like when it was raised."""
+    e = exc_type(msg)
+    _snaps.clear()
+    _snaps[id(e)] = (e, _snapshot(e))
+    return e
+
+
+def altered(e):
+    """'reaches the caller unchanged': same object AND same type / args / text / attributes as when it was raised."""
+    rec = _snaps.get(id(e))
+    if rec is None or rec[0] is not e:
+        return None
+    now = _snapshot(e)
+    if now != rec[1]:
+        return "raised as %r, arrived as %r" % (rec[1][1:], now[1:])
+    return None
 
 
 class StreamStaysBroken(OSError):
@@ -66,8 +133,9 @@ class StreamStaysBroken(OSError):
 
 
 class FaultyWriter:
-    def __init__(self, fail_at, exc_type, binary, with_flush):
+    def __init__(self, fail_at, exc_type, binary, with_flush, sticky=None):
         self.n = 0
+        self.sticky = bool(fail_at % 2) if sticky is None else sticky
         self.fail_at = fail_at
         self.exc_type = exc_type
         self.exc = None
@@ -78,12 +146,12 @@ class FaultyWriter:
 
     def _tick(self):
         self.n += 1
-        if self.exc is not None and self.fail_at % 2:
+        if self.exc is not None and self.sticky:
             # a broken stream stays broken (every other fault position): whatever the library still asks of it fails too,
             # with an exception that is NOT the injected one
             raise StreamStaysBroken("the stream failed earlier (call %d after the fault at %d)" % (self.n - self.fail_at, self.fail_at))
         if self.n == self.fail_at:
-            self.exc = self.exc_type("injected fault #%d" % self.n)
+            self.exc = make_exc(self.exc_type, "injected fault #%d" % self.n)
             raise self.exc
 
     def write(self, data):
@@ -112,7 +180,7 @@ class FaultyReader:
         if self.exc is not None and self.fail_at % 2:
             raise StreamStaysBroken("the stream failed earlier (call %d after the fault at %d)" % (self.n - self.fail_at, self.fail_at))
         if self.n == self.fail_at:
-            self.exc = self.exc_type("injected fault #%d" % self.n)
+            self.exc = make_exc(self.exc_type, "injected fault #%d" % self.n)
             raise self.exc
         if size is None or size < 0:
             size = len(self.data)
@@ -250,12 +318,36 @@ def eval_write(case):
                                         "raised %r, injected %r (invocation %d of %d)" % (e, w.exc, j, total)))
             elif e.__cause__ is not None:
                 failures.append(Failure("fault-chained:write:%s" % dname, "cause %r" % e.__cause__))
+            elif altered(e):
+                failures.append(Failure("fault-altered:write:%s:%s" % (dname, type(e).__name__), altered(e)))
         if not full.startswith(w.value()):
             failures.append(Failure("written-data-not-a-prefix:%s" % dname, "fault at %d: %.80r ... vs %.80r" % (j, w.value()[-80:], full[:80])))
         if 1 < j < total:
             nt += 1
         if failures:
             break
+    # the caller repairs the stream (a transient fault) and dumps again to the SAME stream object: what is appended is what a
+    # dump to a fresh stream writes - nothing about the stream was remembered from the failed call
+    for j in sorted({1, 2, 3, max(1, total // 2), total}) if not failures else ():
+        if j > total:
+            continue
+        evals += 2
+        w = FaultyWriter(j, exc_type, binary, with_flush, sticky=False)
+        try:
+            dump_call(yaml, api, payload, w, D, opts)
+        except BaseException:
+            pass
+        before = w.value()
+        try:
+            dump_call(yaml, api, payload, w, D, opts)
+        except BaseException as e:
+            failures.append(Failure("retry-on-same-stream-raises:%s:%s" % (dname, exc_key(e)), "after a fault at invocation %d of %d: %s" % (j, total, exc_msg(e))))
+            break
+        if w.value() != before + full:
+            failures.append(Failure("retry-on-same-stream-differs:%s" % dname, "after a fault at invocation %d of %d the second dump appended %.80r, a fresh stream gets %.80r" % (
+                j, total, w.value()[len(before):][:80], full[:80])))
+            break
+        cl.add("retry-on-same-stream")
     after_fault(failures, "write:%s" % dname)
     if total >= 3:
         cl.add("invocations>=3")
@@ -268,7 +360,7 @@ def write_cases():
     opts = st.fixed_dictionaries({}, optional={
         "default_flow_style": st.sampled_from([True, False, None]), "canonical": st.sampled_from([None, True]),
         "width": st.sampled_from([None, 10, 80]), "allow_unicode": st.sampled_from([None, True]),
-        "encoding": st.sampled_from([None, "utf-8", "utf-16-le"]), "explicit_start": st.sampled_from([None, True]),
+        "encoding": st.sampled_from([None, "utf-8", "utf-16-le", "utf-16-be"]), "explicit_start": st.sampled_from([None, True]),
         "explicit_end": st.sampled_from([None, True]), "default_style": st.sampled_from([None, '"', "|"])})
     def lists(sizes):
         return st.sampled_from(sizes).map(lambda n: ("l", [("s", "item %d with some text" % i) for i in range(n)]))
@@ -276,10 +368,10 @@ def write_cases():
     # flushes its 16 KB buffer, so it gets values large enough for several flushes
     py = st.tuples(st.lists(st.one_of(gv.blueprints(max_leaves=10), gv.blueprints(max_leaves=10), lists([10, 30])), min_size=1, max_size=3), opts,
                    st.sampled_from(["SafeDumper", "SafeDumper", "PathDumper", "Dumper"]),
-                   st.sampled_from(["dump_all", "dump_all", "emit", "serialize_all"]), st.integers(0, 50), st.booleans())
+                   st.sampled_from(["dump_all", "dump_all", "emit", "serialize_all"]), st.integers(0, 229), st.booleans())
     c = st.tuples(st.lists(st.one_of(gv.blueprints(max_leaves=10), lists([30, 2500, 6000])), min_size=1, max_size=3), opts,
                   st.sampled_from(["CSafeDumper", "CDumper"]),
-                  st.sampled_from(["dump_all", "dump_all", "emit", "serialize_all"]), st.integers(0, 50), st.booleans())
+                  st.sampled_from(["dump_all", "dump_all", "emit", "serialize_all"]), st.integers(0, 229), st.booleans())
     return st.one_of(py, py, c)
 
 
@@ -334,6 +426,8 @@ def eval_read(case):
                                         "raised %r, injected %r (read #%d of %d)" % (e, r.exc, j, total)))
             elif e.__cause__ is not None:
                 failures.append(Failure("fault-chained:read:%s" % lname, "cause %r" % e.__cause__))
+            elif altered(e):
+                failures.append(Failure("fault-altered:read:%s:%s" % (lname, type(e).__name__), altered(e)))
         if 1 < j < total:
             nt += 1
         if failures:
@@ -349,7 +443,7 @@ def read_cases():
     sched = st.one_of(st.just([4096]), st.lists(st.sampled_from([1, 7, 100, 1000, 4096, 5000]), min_size=1, max_size=6))
     return st.tuples(st.sampled_from([0, 3, 20, 60, 150]), st.sampled_from([1, 10, 60]),
                      st.sampled_from(["SafeLoader", "SafeLoader", "PathLoader", "CSafeLoader", "Loader", "CLoader"]),
-                     st.sampled_from(LEVELS), sched, st.integers(0, 50), st.booleans())
+                     st.sampled_from(LEVELS), sched, st.integers(0, 229), st.booleans())
 
 
 # ------------------------------------------------------------------------------------------------
@@ -402,7 +496,7 @@ def eval_ctor(case):
     def tick():
         state["n"] += 1
         if state["n"] == state["fail_at"]:
-            state["exc"] = exc_type("injected fault in callback #%d" % state["n"])
+            state["exc"] = make_exc(exc_type, "injected fault in callback #%d" % state["n"])
             raise state["exc"]
 
     if kind == "plain":
@@ -444,6 +538,8 @@ def eval_ctor(case):
                                         "raised %s, injected %r at callback #%d of %d (position %s)\ntext=%r" % (exc_msg(e), state["exc"], j, total, pos, text)))
             elif e.__cause__ is not None:
                 failures.append(Failure("fault-chained:constructor:%s" % kind, "cause %r" % e.__cause__))
+            elif altered(e):
+                failures.append(Failure("fault-altered:constructor:%s:%s" % (kind, type(e).__name__), altered(e)))
         if 1 < j < total:
             nt += 1
         if failures:
@@ -462,7 +558,7 @@ def eval_ctor(case):
 
 def ctor_cases():
     return st.tuples(st.lists(st.sampled_from(POSITIONS), min_size=1, max_size=6), st.sampled_from(["plain", "multi", "yamlobject"]),
-                     st.sampled_from(["SafeLoader", "PathLoader", "CSafeLoader", "FullLoader"]), st.integers(0, 50))
+                     st.sampled_from(["SafeLoader", "PathLoader", "CSafeLoader", "FullLoader"]), st.integers(0, 229))
 
 
 # ------------------------------------------------------------------------------------------------
@@ -482,7 +578,7 @@ def eval_repr(case):
     def tick():
         state["n"] += 1
         if state["n"] == state["fail_at"]:
-            state["exc"] = exc_type("injected fault in callback #%d" % state["n"])
+            state["exc"] = make_exc(exc_type, "injected fault in callback #%d" % state["n"])
             raise state["exc"]
 
     D = type("CbDumper", (Base,), {})
@@ -564,6 +660,8 @@ def eval_repr(case):
             if e is not state["exc"]:
                 failures.append(Failure("fault-replaced:representer:%s:%s" % (kind, type(e).__name__),
                                         "raised %s, injected %r at callback #%d of %d" % (exc_msg(e), state["exc"], j, total)))
+            elif altered(e):
+                failures.append(Failure("fault-altered:representer:%s:%s" % (kind, type(e).__name__), altered(e)))
         if not full.startswith(w.value()):
             failures.append(Failure("written-data-not-a-prefix:representer", "fault at %d: %.80r vs %.80r" % (j, w.value()[-80:], full[:80])))
         if 1 < j < total:
@@ -585,7 +683,7 @@ def repr_cases():
     opts = st.fixed_dictionaries({}, optional={"default_flow_style": st.sampled_from([True, False]), "canonical": st.just(True),
                                                "sort_keys": st.booleans(), "explicit_start": st.just(True)})
     return st.tuples(st.integers(0, 5), st.sampled_from(["plain", "multi", "yamlobject"]),
-                     st.sampled_from(["SafeDumper", "PathDumper", "CSafeDumper", "Dumper"]), st.integers(0, 50), opts)
+                     st.sampled_from(["SafeDumper", "PathDumper", "CSafeDumper", "Dumper"]), st.integers(0, 229), opts)
 
 
 def arms(tier):
@@ -595,5 +693,5 @@ def arms(tier):
             Arm("representer", eval_repr, repr_cases, quick=800, thorough=15000)]
 
 
-REQUIRED_CLASSES = ["write-fault", "read-fault", "constructor-fault", "representer-fault", "invocations>=3", "at:key", "at:set-member",
+REQUIRED_CLASSES = ["retry-on-same-stream", "exc:RepresenterError", "exc:Detailed", "write-fault", "read-fault", "constructor-fault", "representer-fault", "invocations>=3", "at:key", "at:set-member",
                     "exc:TypeError", "exc:Interrupt", "exc:OSError", "exc:UnicodeDecodeError", "exc:YAMLError", "dumper:CSafeDumper", "loader:CSafeLoader", "loader:PathLoader", "dumper:PathDumper"]
